@@ -123,6 +123,16 @@ class RandomChoice(IO):
     _defaults = {"axis": None, "shuffle": None}
     _funcname = "da.random.choice-"
 
+    def __dask_tokenize__(self):
+        # Token from the per-block seeds rather than from the generator snapshot
+        # object, whose pickle bytes are not stable across a pickle round trip.
+        if not self._determ_token:
+            from dask.tokenize import _tokenize_deterministic
+
+            operands = [self.state_data if p == "_state" else o for p, o in zip(self._parameters, self.operands)]
+            self._determ_token = _tokenize_deterministic(type(self), *operands)
+        return self._determ_token
+
     @cached_property
     def chunks(self):
         return self.operand("chunks")
